@@ -2,7 +2,8 @@
 """For every seeded change (directories given as arguments, each holding patch.diff) apply it to a scratch
 worktree, run all checks, and record which property checks report which rules. Writes seeded/matrix.json."""
 import json, os, re, subprocess, sys
-WT = "/tmp/wt/mut"
+import os as _os
+WT = _os.environ.get("MUT_WT", "/tmp/wt/mut")
 def run(cmd, **kw): return subprocess.run(cmd, capture_output=True, text=True, **kw)
 out = {}
 for d in sys.argv[1:]:
